@@ -13,41 +13,8 @@ import EzdxfVerif.Model.Doc
 
 namespace EzdxfVerif.Doc
 
-def ownerOf (s : State) (h : Nat) : Option Nat :=
-  match findEnt s h with | some e => e.owner | none => none
-
-/-- step 1 on one space: keep dead entries (they are skipped), keep live entries owned by `k` -/
-def keepInSpace (s : State) (k h : Nat) : Bool := !isAlive s h || ownerOf s h == some k
-
-def auditSpaces (s : State) : State :=
-  { s with spaces := s.spaces.map (fun p => (p.1, p.2.filter (keepInSpace s p.1))) }
-
-def spaceFixes (s : State) : Nat :=
-  (s.spaces.map (fun p => (p.2.filter (fun h => !keepInSpace s p.1 h)).length)).sum
-
-/-- the block record `k` is in the entity database: it is a block record of the table -/
-def ownerExists (s : State) (o : Option Nat) : Bool :=
-  match o with | some k => (spaceOf s k).isSome | none => false
-
-def blockDefined (s : State) (r : Option Str) : Bool :=
-  match r with | some n => (blockBr s (lower n)).isSome | none => true
-
-/-- step 2: which database entities are trashed -/
-def trashed (s : State) (e : Ent) : Bool :=
-  e.alive && e.indb && (!ownerExists s e.owner || !blockDefined s e.ref)
-
-def auditEntities (s : State) : State :=
-  { s with ents := s.ents.map (fun e => if trashed s e then { e with alive := false, indb := false } else e) }
-
-/-- both checks report their own fix for the same entity (`check_owner_exist`, then `Insert.audit`) -/
-def entityFixes (s : State) : Nat :=
-  (s.ents.filter (fun e => e.alive && e.indb && !ownerExists s e.owner)).length +
-  (s.ents.filter (fun e => e.alive && e.indb && !blockDefined s e.ref)).length
-
-/-- the modelled part of `doc.audit()`: (new state, number of applied fixes) -/
-def audit (s : State) : State × Nat :=
-  let s1 := auditSpaces s
-  (auditEntities s1, spaceFixes s + entityFixes s1)
+-- `ownerOf`, `keepInSpace`, `auditSpaces`, `spaceFixes`, `ownerExists`, `blockDefined`, `trashed`, `auditEntities`,
+-- `entityFixes`, `auditGroups`, `groupFixes` and `audit` live in Model/Doc.lean (audit is also a history step).
 
 /-! ### in-memory damage used by the correspondence (what a loader can produce from a damaged file) -/
 
@@ -60,9 +27,12 @@ def dmgAppend (s : State) (k e : Nat) : State :=
   { s with spaces := setSpace s.spaces k (· ++ [e]) }
 
 /-- what "valid" means for the no-false-positive clause: every live database entity is linked to an
-    existing block record and is listed there, and block references are defined -/
+    existing block record and is listed there, block references are defined, every group is non-empty with
+    live members that lie on one (model/paper space) layout, no `*Paper_Space…` block record is without a layout, and an active paperspace layout exists if any paperspace layout does -/
 def AuditClean (s : State) : Prop :=
-  (∀ p ∈ s.spaces, ∀ h ∈ p.2, keepInSpace s p.1 h = true) ∧ (∀ e ∈ s.ents, trashed s e = false)
+  (∀ p ∈ s.spaces, ∀ h ∈ p.2, keepInSpace s p.1 h = true) ∧ (∀ e ∈ s.ents, trashed s e = false) ∧
+  (∀ g ∈ s.groups, g.2.2.all (validMember s) = true ∧ sameLayout s g.2.2 = true ∧ g.2.2.isEmpty = false) ∧
+  orphanBlocks s = [] ∧ needRestore s = false
 
 instance (s : State) : Decidable (AuditClean s) := by
   unfold AuditClean; exact inferInstance
